@@ -9,7 +9,8 @@
 // steps  comma list of <adv>/<key>/<answers>: advance the clock by <adv> seconds (a multiple of
 //
 //	gridSeconds), then Validate(key) while application i would answer answers[i]
-//	(y = recognized, n = not recognized, e = error) if it is asked.
+//	if it is asked: y = (true, nil), n = (false, nil), e = (false, err), b = (true, err) —
+//	all four combinations of the two results of IsRecognized.
 //
 // Obs line: comma list, one item per step: <V><calls>:<positive cache keys>:<negative cache keys>
 // V = A (nil), R (errNotRecognized), E (wrapped application error); calls = IsRecognized calls
@@ -112,7 +113,11 @@ func gen(r *hx.Rng, n int, tier string) []string {
 			for a := 0; a < napps; a++ {
 				switch {
 				case r.Intn(10) < errs:
-					ans = append(ans, 'e')
+					if r.Bool() {
+						ans = append(ans, 'e')
+					} else {
+						ans = append(ans, 'b') // recognized AND error
+					}
 				case r.Intn(10) < yes:
 					ans = append(ans, 'y')
 				default:
@@ -154,6 +159,8 @@ func (a *app) IsRecognized(pk *operator.PublicKey) (bool, error) {
 		return true, nil
 	case 'n':
 		return false, nil
+	case 'b':
+		return true, errApp
 	}
 	return false, errApp
 }
@@ -230,7 +237,7 @@ func exec(op string) (string, string) {
 			ans = ""
 		}
 		if !ok1 || !ok2 || key >= numKeys || adv%gridSeconds != 0 || len(ans) != napps ||
-			strings.Trim(ans, "yne") != "" {
+			strings.Trim(ans, "yneb") != "" {
 			return "bad-op", "bad"
 		}
 		steps = append(steps, step{adv, key, ans})
@@ -282,6 +289,9 @@ func exec(op string) (string, string) {
 			tags["asked-no"] = true
 		case v == "E":
 			tags["asked-err"] = true
+			if calls > 0 && calls <= len(st.ans) && st.ans[calls-1] == 'b' {
+				tags["asked-yes-with-err"] = true
+			}
 			if inNeg && !tagHas(contents(neg), st.key) {
 				tags["err-after-neg-expiry"] = true
 			}
